@@ -20,6 +20,13 @@ import (
 type MyString string
 type MyNS mg.Namespace
 
+// look-alikes of context.Context
+type CtxStruct struct{ context.Context }
+type CtxIface interface {
+	context.Context
+	Extra()
+}
+
 var poolErr error = errors.New("pool error")
 
 type val struct {
@@ -76,6 +83,10 @@ func toVal(x interface{}) val {
 		return val{T: "myns"}
 	case struct{}:
 		return val{T: "empty"}
+	case CtxStruct:
+		return val{T: "ctxstruct"}
+	case *CtxStruct:
+		return val{T: "ctxptr"}
 	case context.Context:
 		if v.Value(ctxKey{}) != nil {
 			return val{T: "ctx", V: mustJSON("given")}
@@ -126,6 +137,12 @@ func fromVal(v val) interface{} {
 		return &n
 	case "ctx":
 		return context.Background()
+	case "ctxstruct":
+		return CtxStruct{context.Background()}
+	case "ctxptr":
+		return &CtxStruct{context.Background()}
+	case "ctxiface":
+		return nil
 	case "ns":
 		return mg.Namespace{}
 	case "myns":
